@@ -168,3 +168,71 @@ func VerifH_C12_convertedSortingColumns() {
 	}
 	vCover("converted")
 }
+
+// nested group whose fields are permuted in the target: values follow the names
+type verifPointXY struct {
+	X int64 `parquet:"x"`
+	Y int64 `parquet:"y"`
+}
+
+type verifPointYX struct {
+	Y int64 `parquet:"y"`
+	X int64 `parquet:"x"`
+}
+
+type verifSrcNested struct {
+	ID int64        `parquet:"id"`
+	P  verifPointXY `parquet:"p"`
+}
+
+type verifDstNested struct {
+	ID int64        `parquet:"id"`
+	P  verifPointYX `parquet:"p"`
+}
+
+func VerifH_C12_nestedFieldPermutation() {
+	vUnwind(1 << 16)
+	vAbstractCRCFixedWidth() // page checksums are not the subject
+	rows := []verifSrcNested{{1, verifPointXY{int64(vI8("x0")), int64(vI8("y0"))}}, {2, verifPointXY{7, 9}}}
+	buf := new(bytes.Buffer)
+	w := NewGenericWriter[verifSrcNested](buf)
+	if _, err := w.Write(rows); err != nil {
+		vAssert(false, "rows are accepted")
+		return
+	}
+	if err := w.Close(); err != nil {
+		vAssert(false, "file closes")
+		return
+	}
+	data := buf.Bytes()
+	if vChoose("via", 0, 1) == 0 {
+		got, err := Read[verifDstNested](bytes.NewReader(data), int64(len(data)))
+		vAssert(err == nil && len(got) == len(rows), "every row is read")
+		for i := range rows {
+			if i < len(got) {
+				vAssert(got[i].ID == rows[i].ID && got[i].P.X == rows[i].P.X && got[i].P.Y == rows[i].P.Y, "fields permuted inside a nested group keep their values")
+			}
+		}
+	} else {
+		// CopyRows into a buffer of the target type converts when the schemas differ
+		f, err := OpenFile(bytes.NewReader(data), int64(len(data)))
+		if err != nil {
+			vAssert(false, "file opens")
+			return
+		}
+		dst := NewGenericBuffer[verifDstNested]()
+		rr := f.RowGroups()[0].Rows()
+		n, err := CopyRows(dst, rr)
+		rr.Close()
+		vAssert(err == nil && n == int64(len(rows)), "rows are copied")
+		out := make([]verifDstNested, len(rows)+1)
+		r := NewGenericRowGroupReader[verifDstNested](dst)
+		k, _ := r.Read(out)
+		r.Close()
+		vAssert(k == len(rows), "copied rows are read")
+		for i := 0; i < k && i < len(rows); i++ {
+			vAssert(out[i].ID == rows[i].ID && out[i].P.X == rows[i].P.X && out[i].P.Y == rows[i].P.Y, "CopyRows keeps the values of fields permuted inside a nested group")
+		}
+	}
+	vCover("permuted")
+}
